@@ -37,15 +37,30 @@ ASSUMPTIONS = ['crash granularity: the Python-level primitive (os.*, file write/
 
 def units(tier, seed):
     cids = ['file-pickle', 'file-json', 'dir-pickle', 'sqlite']
-    priors = [{}, {'a': 'old', 'b': 'keep'}]
+    priors = [{}, {'a': 'old', 'b': 'keep'}, {'T(1, 2)': 'old', 'b': 'keep'}]
     if tier == 'thorough':
         cids += ['dir-json', 'dir-compressed', 'file-source']
         priors.append({'a': 'old', 'b': 'keep', 'c': 3})
     ops = [{'op': 'set', 'key': 'n', 'value': 'new'}, {'op': 'set', 'key': 'a', 'value': 'new'},
            {'op': 'update', 'items': [['a', 'new'], ['n', 'new2']]}, {'op': 'del', 'key': 'a'}, {'op': 'pop', 'key': 'a'},
            {'op': 'clear'}, {'op': 'dump', 'items': [['a', 'new'], ['n', 'new2']]}, {'op': 'open'}]
-    return [(cid, pi, prior, oi, op) for cid in cids for pi, prior in enumerate(priors) for oi, op in enumerate(ops)
-            if not (op['op'] in ('del',) and 'a' not in prior)]
+    tops = [{'op': 'set', 'key': [1, 2], 'value': 'new'}, {'op': 'dump', 'items': [[[1, 2], 'new']]}, {'op': 'pop', 'key': [1, 2]}]
+    out = []
+    for cid in cids:
+        for pi, prior in enumerate(priors):
+            tup = any(k.startswith('T(') for k in prior)
+            if tup and cid in ('file-json', 'dir-json', 'sqlite'):
+                continue            # tuple keys are outside what these backends accept
+            for oi, op in enumerate(tops if tup else ops):
+                if op['op'] == 'del' and 'a' not in prior:
+                    continue
+                out.append((cid, pi, _realkeys(prior), oi if not tup else 100 + oi, op))
+    return out
+
+
+def _realkeys(prior):
+    """unit descriptors are JSON-friendly: 'T(1, 2)' stands for the tuple key (1, 2)"""
+    return prior
 
 
 def _env():
@@ -68,19 +83,20 @@ def reader(cid, root):
 
 
 def expected_new(prior, op):
+    prior = {_k(k): v for k, v in prior.items()}
     new = dict(prior)
     touched = set()
     k = op['op']
     if k == 'set':
-        new[op['key']] = op['value']
-        touched.add(op['key'])
+        new[_k(op['key'])] = op['value']
+        touched.add(_k(op['key']))
     elif k in ('update', 'dump'):
         for kk, v in op['items']:
-            new[kk] = v
-            touched.add(kk)
+            new[_k(kk)] = v
+            touched.add(_k(kk))
     elif k in ('del', 'pop'):
-        new.pop(op['key'], None)
-        touched.add(op['key'])
+        new.pop(_k(op['key']), None)
+        touched.add(_k(op['key']))
     elif k == 'clear':
         new = {}
         touched = set(prior)
@@ -126,11 +142,15 @@ def klass_of(cid, op, effect, why):
     return '%s %s: killed before %s: %s' % (fam if fam != 'sqlite' else 'sqlite', op['op'], e, kind)
 
 
+def _k(k):
+    return eval(k[1:], {}) if isinstance(k, str) and k.startswith('T(') else (tuple(k) if isinstance(k, list) else k)
+
+
 def _prepare(cid, prior):
     root = AR.new_root()
     a = AR.open_archive(cid, root)
     for k, v in prior.items():
-        a[k] = v
+        a[_k(k)] = v
     del a
     return root
 
@@ -176,7 +196,7 @@ def run_unit(unit):
                 out['counters']['crash_points'] += 1
                 if p.returncode != 17:
                     continue        # the effect sequence was shorter this time (e.g. random temp names): nothing was interrupted
-                why = judge(reader(cid, r), prior, new, touched)
+                why = judge(reader(cid, r), {_k(k): v for k, v in prior.items()}, new, touched)
                 if why:
                     kl = klass_of(cid, op, effects[i], why)
                     if kl in seen:
@@ -207,7 +227,7 @@ def replay(w):
         new, touched = expected_new(prior, op)
         p = child(cid, base, op, w['kill'], w['half'])
         line = reader(cid, base)
-        why = judge(line, prior if w['kill'] >= 0 else new, new, touched if w['kill'] >= 0 else set())
+        why = judge(line, {_k(k): v for k, v in prior.items()} if w['kill'] >= 0 else new, new, touched if w['kill'] >= 0 else set())
         txt = '%s: %r on %r, writer killed before effect #%d%s; a new process reads: %s' % (cid, op, prior, w['kill'], ' (half write)' if w['half'] else '', line[:300])
         return bool(why), txt + (' -- ' + why if why else ' -- acceptable')
     finally:
